@@ -66,7 +66,8 @@ class C17(CheckBase):
     assumptions = ['application-layer bytes are observed at MessageFactory.serialize_message / MessageReader.read_received_message',
                    'a message without Accept-Encoding declares nothing acceptable except identity']
     expected_probes = ['corrupt_coding_requests', 'wire_messages', 'chunked_messages', 'coded_messages', 'sloppy_headers', 'large_bodies',
-                       'notifications_to_scripted']
+                       'notifications_to_scripted', 'consumer_chunked_responses',
+                       'codings_changed_at_runtime']
     max_steps = 14_000_000
 
     def budget(self, tier):
@@ -97,7 +98,10 @@ class C17(CheckBase):
         subs = [{'accept': rng.choice(ACCEPT_VARIANTS)} for _ in range(rng.randint(1, 3))]
         big = rng.random() < 0.3 and cfg['chunk_size'] not in (1, 2, 3) and cfg['consumer_chunk'] not in (1, 2, 3)
         return {'sched': draw_sched_config(rng, line_ok=False), 'world': cfg, 'ops': ops, 'reqs': reqs, 'subs': subs,
-                'big_samples': rng.choice([2000, 20000]) if big else 0}
+                'big_samples': rng.choice([2000, 20000]) if big else 0,
+                'consumer_server_chunk': rng.choice([0, 0, 1, 7, 512]),
+                'recode': rng.choice([None, None, [], ['gzip'], ['gzip'] if async_mgr else ['x-lz4'],
+                                      ['gzip'] if async_mgr else ['gzip', 'x-lz4']])}
 
     # ------------------------------------------------------------------
     def body(self, ctx):
@@ -123,6 +127,19 @@ class C17(CheckBase):
         w = worldb.WorldB(ctx, plan['world'])
         w.start_provider(role_components=None)
         prov = w.provider
+        if plan.get('consumer_server_chunk') and plan['world'].get('consumer_codings') is not None:
+            # the consumer receives its notifications through an HTTP server the application shares with it and that
+            # sends chunked responses (the answers to notifications have an empty body)
+            from sdc11073 import loghelper
+            from sdc11073.httpserver.httpserverimpl import HttpServerThreadBase
+            ctx.probe('consumer_chunked_responses')
+            with worldb.node(worldb.CONSUMER_IPS[0]):
+                shared_c = HttpServerThreadBase(worldb.CONSUMER_IPS[0], None, list(plan['world']['consumer_codings']),
+                                                loghelper.get_logger_adapter('sdc.sharedc'),
+                                                chunk_size=plan['consumer_server_chunk'])
+                shared_c.start()
+                shared_c.started_evt.wait(5)
+            w.cfg['consumer_start_args'] = {'shared_http_server': shared_c}
         c, cm = w.start_consumer(0, init_mdib=True)
         A = w.mdib.sdc_definitions.Actions
         paddr = (worldb.PROVIDER_IP, prov._http_server.server_port)
@@ -159,6 +176,14 @@ class C17(CheckBase):
                 except W.OpRejected:
                     pass
         w.settle(5.0)
+        # the application changes the enabled codings of the running provider
+        w.recode = None
+        if plan.get('recode') is not None:
+            ctx.probe('codings_changed_at_runtime')
+            with worldb.node(worldb.PROVIDER_IP):
+                prov.set_used_compression(*plan['recode'])
+            w.recode = (s.now, list(plan['recode']))
+            s.sleep(0.01)
         # scripted raw requests with Accept-Encoding variants
         cl = peers.RawClient(ATT_IP, paddr)
         get_path = f'/{prov.path_prefix}/{prov.hosted_services.dpws_hosted_services["Get"].path_element}'
@@ -304,6 +329,9 @@ class C17(CheckBase):
                     if library_server:
                         self._lossless(ctx, where, 'response', r, produced, consumed if library_client else None, status=r.status)
                         local = prov_codings if conn.server_addr == paddr else cons_codings
+                        if conn.server_addr == paddr and w.recode is not None and conn.c2s.rec and \
+                                conn.c2s.rec[0][0] > w.recode[0]:
+                            local = w.recode[1]  # connection opened after the application changed the setting
                         if renc and renc not in [x.lower() for x in local]:
                             ctx.violation('C17.negotiation', f'response-coding-not-enabled:{renc}',
                                           f'{where}: response coded with {renc} but the server has only {local} enabled')
